@@ -20,6 +20,7 @@ package c20
 import (
 	"fmt"
 	"math/rand"
+	"os"
 	"sync"
 	"testing"
 
@@ -385,13 +386,17 @@ func TestC20(t *testing.T) {
 	run := ev.Start(t, "C20", "exploration",
 		"PRNG histories (8-60 ops, 5 weight profiles) of Add/Next/Ready/Eject over 3-6 info hashes on a real QueueImpl; Add only for absent hashes, "+
 			"Ready/Eject for any hash. Non-trivial = at least one Next handed out a hash and at least one Ready hit an in-flight hash or one Eject hit a present hash; "+
-			"distinct = distinct (universe size, op list).")
+			"distinct = distinct (universe size, op list). Scheduler phase: PRNG orders of {announce tick, hang up a conn of torrent t, release the oldest held announce response of t} on a real scheduler with 1-3 torrents, max open conns 1-3 and all responses held back; "+
+			"non-trivial = at least one tick fired after a conn of a torrent closed while that torrent's announce was outstanding.")
 	defer run.Finish()
 	run.Assume("Add is only called for hashes that are neither ready nor in flight (documented: behaviour undefined otherwise)")
 	run.Assume("the queue is used from one goroutine (documented as not thread safe; the scheduler calls it from its event loop only)")
 
 	const workers = 8
 	total := run.N(30000, 1200000)
+	if os.Getenv("C20_DEV_SKIP_PART1") != "" { // development aid only
+		total = 0
+	}
 	per := total / workers
 
 	// fixed universe of hashes for the whole run (seed-determined)
@@ -425,4 +430,6 @@ func TestC20(t *testing.T) {
 		}(w)
 	}
 	wg.Wait()
+
+	runSchedulerPhase(t, run)
 }
